@@ -47,6 +47,23 @@ out += ["", "### 10.5 Sensitivity: independently seeded changes (`seeded/<name>/
         "manifest. Each was confirmed in a fresh scratch copy (`tools/seedcheck.sh`: demo exits 0 without / non-zero with the",
         "change, baseline `missing=0`), then the property's quick check was run against the copy.", "",
         "| seeded change | property | needs | outcome |", "|---------------|----------|-------|---------|"]
+import collections, re
+rounds = collections.OrderedDict()
+for d in sorted(glob.glob(f"{V}/seeded/*/meta.json")):
+    m = json.load(open(d))
+    name = os.path.basename(os.path.dirname(d))
+    r = re.search(r"-r(\d)-", name)
+    r = int(r.group(1)) if r else 1
+    det = m["detected_by"].lower()
+    cls = "not detected" if det.startswith("not detected") else ("missed at first, detected after strengthening" if ("missed at first" in det or "first run:" in det or "missed in the quick" in det or "missed by the first" in det or " after t" in det[:130] or "after the schema generator" in det) else "detected by the first run")
+    rounds.setdefault(r, collections.Counter())[cls] += 1
+summary = ["| round | changes | detected by the first run | missed at first, detected after strengthening | not detected |",
+           "|-------|---------|---------------------------|-----------------------------------------------|--------------|"]
+for r, c in sorted(rounds.items()):
+    summary.append(f"| {r} | {sum(c.values())} | {c['detected by the first run']} | {c['missed at first, detected after strengthening']} | {c['not detected']} |")
+out[-2:-2] = summary + ["", "Every miss had one of two causes: the generator never produced the shape the change needs, or the excluded region",
+                        "of an open finding was wider than the defect; the remedy was always a new shape / a narrower region, never a looser",
+                        "oracle. Two misses uncovered genuine defects of the unchanged tree (FX-12, KF-C04-8, KF-C05-2, KF-C16-3).", ""]
 for d in sorted(glob.glob(f"{V}/seeded/*/meta.json")):
     m = json.load(open(d))
     out.append(f"| `{os.path.basename(os.path.dirname(d))}` | {m['property']} | {m['needs']} | {m['detected_by']} |")
